@@ -12,6 +12,7 @@
 //   x tid functor k  (in the access log: the call that threw) / calls tid op functor=n ... / fault tid op functor k fired /
 //   dead <node ids deallocated during the run> / res ... 2 = the operation left by the injected exception
 #include "c12_common.h"
+#include <functional>
 #include <oneapi/tbb/concurrent_set.h>
 #include <oneapi/tbb/concurrent_map.h>
 
@@ -199,6 +200,28 @@ static bool run_once(verif::Schedule& sch, int run_idx, int print) {
                 if ((long)n > hi + inflight) fail("count(" + std::to_string(o.key) + ") = " + std::to_string(n) + " above the number of started inserts of the key " + std::to_string(hi) + " + " + std::to_string(inflight) + " inserts of other keys in flight during the call");
                 else if ((long)n > hi) observations.push_back("count(" + std::to_string(o.key) + ") = " + std::to_string(n) + " although only " + std::to_string(hi) + " such elements were ever inserted (concurrent inserts of other keys inside equal_range)");
                 r.vals.push_back(n);
+            } else if (o.name == "rtrav") {
+                // traversal through range() sub-ranges (split as a parallel algorithm would), begin()/end() re-read on every step
+                std::set<const void*> before = elems_done;
+                std::vector<const void*> addrs;
+                typedef typename C::range_type range_t;
+                size_t n = 0;
+                // depth-first like parallel_for: a sub-range is split again only when it is reached, i.e. after concurrent inserts may have
+                // changed what lies inside it
+                std::function<void(range_t&, int)> walk = [&](range_t& x, int depth) {
+                    if (depth < 3 && x.is_divisible()) {
+                        range_t right(x, tbb::split());
+                        walk(x, depth + 1); walk(right, depth + 1);
+                        return;
+                    }
+                    for (auto it = x.begin(); it != x.end(); ++it) {
+                        if (++n > walk_bound) { fail("range traversal does not terminate / runs past its end"); break; }
+                        r.vals.push_back(T::key(*it)); addrs.push_back(&*it);
+                    }
+                };
+                range_t whole = c.range();
+                walk(whole, 0);
+                check_traversal(r.vals, addrs, before, "traversal through range() sub-ranges");
             } else if (o.name == "trav") {
                 std::set<const void*> before = elems_done;
                 std::vector<const void*> addrs;
